@@ -195,6 +195,10 @@ fn wellformed_case(rng: &mut Rng, rep: &mut Report, idx: u64) {
     // sprinkle blank lines and comments
     let mut text = String::new();
     let crlf = rng.chance(1, 3);
+    let long_lines = rng.chance(1, 6);
+    if long_lines {
+        rep.count("layout.very_long_lines");
+    }
     for l in lines {
         while rng.chance(1, 6) {
             match rng.below(3) {
@@ -203,6 +207,33 @@ fn wellformed_case(rng: &mut Rng, rep: &mut Report, idx: u64) {
                 _ => text.push_str("   #indented comment"),
             }
             text.push_str(if crlf { "\r\n" } else { "\n" });
+        }
+        if long_lines && rng.chance(1, 3) {
+            // lines of several thousand characters: long comments whose
+            // tail looks like data, deep indentation, wide padding
+            let n = rng.pick(&[300usize, 1020, 1024, 1025, 2048, 5000]);
+            match rng.below(3) {
+                0 => {
+                    text.push('#');
+                    for i in 0..n / 8 {
+                        text.push_str(if i % 2 == 0 { " v 9 9 9" } else { " f 1 1 1" });
+                    }
+                    text.push_str(if crlf { "\r\n" } else { "\n" });
+                }
+                1 => {
+                    for _ in 0..n {
+                        text.push(' ');
+                    }
+                }
+                _ => {
+                    // padding between the fields of this very line
+                    let pad: String = std::iter::repeat(' ').take(n).collect();
+                    let padded = l.replacen(' ', &pad, 1);
+                    text.push_str(&padded);
+                    text.push_str(if crlf { "\r\n" } else { "\n" });
+                    continue;
+                }
+            }
         }
         text.push_str(&l);
         text.push_str(if crlf { "\r\n" } else { "\n" });
@@ -334,6 +365,7 @@ pub fn run(cfg: &Cfg, rep: &mut Report) {
     rep.floor("faithful.vertices_compared", 500_000);
     rep.floor("faithful.faces_compared", 500_000);
     rep.floor("layout.faces_first", 5_000);
+    rep.floor("layout.very_long_lines", 2_000);
     rep.floor("layout.interleaved", 5_000);
     rep.floor("totality.parsed_ok_with_faces", 4_000);
     rep.floor("totality.rejected_with_error", 100_000);
